@@ -118,6 +118,7 @@ def cases(tier):
         if tier == "thorough" or len(desc[1]) <= 3:
             out.append((desc, "desc"))
             out.append((desc, "asc", "edif-identifiers"))
+            out.append((desc, "asc", "after-refused-edits"))
     for desc in design.family_hier(tier, variants=("plain",)):
         if desc[0] in ("K2-shared", "K8-bus", "K1-chain2"):
             out.append((desc, "asc", "late-ports"))
@@ -127,6 +128,8 @@ def cases(tier):
             out.append((desc, "asc", "other-policy-in-force"))
         if desc[0] in ("K1-chain2", "K8-bus", "K5-chain3") and (tier == "thorough" or sum(desc[1]) % 4 == 0):
             out.append((desc, "asc", "flat-block-reused"))
+        if desc[0] in ("K1-chain2", "K2-shared", "K8-bus", "K7-shared-both") and (tier == "thorough" or sum(desc[1]) % 5 == 0):
+            out.append((desc, "asc", "after-refused-edits"))
     return out
 
 
